@@ -123,6 +123,13 @@ func (e *Engine) lookupLocal(fr *Frame, name string) (*Ptr, types.Type, bool) {
 		}
 	}
 	if best == nil {
+		// name_N: the N-th variable called `name` in the function (block order) - tells the hidden `rangeindex`
+		// variables of nested / consecutive range loops apart
+		if al := e.nthLocal(fr, name); al != nil {
+			best = al
+		}
+	}
+	if best == nil {
 		return nil, nil, false
 	}
 	p := fr.regs[best].(*Ptr)
@@ -767,6 +774,22 @@ func (e *Engine) resolveType(env *Env, ts string) (types.Type, string, error) {
 	}
 	if t, ok := basicTypeNames[ts]; ok {
 		return t, e.tm.SortOf(t), nil
+	}
+	if strings.HasPrefix(ts, "[") && !strings.HasPrefix(ts, "[]") {
+		// array type [N]T
+		if k := strings.Index(ts, "]"); k > 1 {
+			var n int64
+			if _, err := fmt.Sscanf(ts[1:k], "%d", &n); err == nil && n >= 0 {
+				el, _, err := e.resolveType(env, ts[k+1:])
+				if err != nil {
+					return nil, "", err
+				}
+				if el != nil {
+					t := types.NewArray(el, n)
+					return t, e.tm.SortOf(t), nil
+				}
+			}
+		}
 	}
 	if strings.HasPrefix(ts, "[]") {
 		el, _, err := e.resolveType(env, ts[2:])
